@@ -166,6 +166,13 @@ def twice(x):
 
 
 @command
+def noneval(x):
+    """a perfectly good result whose value is None"""
+    CALLS.append("noneval")
+    return None
+
+
+@command
 def subfail(x, context=None):
     """reports failure through the state it returns: hands back the (failed) state of a sub-evaluation"""
     CALLS.append("subfail")
